@@ -1,6 +1,7 @@
 package props
 
 import (
+	"os"
 	"errors"
 	"fmt"
 	"math/rand/v2"
@@ -21,7 +22,7 @@ func (C12) Level() string { return "exploration" }
 func (C12) Rule() string {
 	return "each run = one seeded allocation-heavy label history (cleaves, supervoxel splits, next-label requests, merges and mutating writes as mutation-id consumers, ingests of arbitrary labels, " +
 		"new versions and instances) with: concurrent batches of 2-4 allocating requests interleaved by the scheduler; min_mutation_id_start placed 0-2 below a stride boundary; clean and kill restarts; " +
-		"process exit before/after a randomly chosen write of an allocating operation; an acknowledged ingest whose background max-label update the scheduler has not yet released, followed by a kill. " +
+		"process exit before/after a randomly chosen write of an allocating operation; a stride-race family in which merges on two labelmap instances of one repository are issued together exactly on the persist-ahead boundary (every 100th id, min_mutation_id_start above DVID's built-in 1e9) with the process killed at the write of the persisted bound - also in the 'held' mode, where that write stays pending until every other request that can be answered has been answered (priority scheduling policy); ids acknowledged before the kill count; an acknowledged ingest whose background max-label update the scheduler has not yet released, followed by a kill. " +
 		"Oracle over the whole multi-lifetime history: no allocated label, mutation id or version id is issued twice; labels and mutation ids increase in issue order (within a concurrent batch: distinct and above everything before the batch); " +
 		"every allocated label is greater than every label present in the volume at any version (labels of acknowledged requests). After a crash the model is re-synchronised from the server because the interrupted operation's effect is unknown. " +
 		"non-trivial = at least one allocation after a restart/crash or inside a concurrent batch; distinct = distinct (steps, schedule, faults) hash"
@@ -71,12 +72,32 @@ func (C12) Generate(r *rand.Rand, tier string, idx int) *drv.Scenario {
 		out = append(out, steps[3:]...)
 		steps = out
 	}
+	if fam == "allocation" && r.IntN(4) == 0 {
+		// stride-race family: concurrent mutation-id consumers around the persist-ahead boundary, with the
+		// process killed at the write of the persisted bound; ids acknowledged before the kill count
+		fam = "stride-race"
+		var out []drv.Op
+		out = append(out, steps[:3]...)
+		out = append(out, drv.Op{Op: "ingest", V: 0, N: seed()}, drv.Op{Op: "ingest", V: 0, N: seed()}, drv.Op{Op: "ingest", V: 0, N: seed()})
+		for i := 0; i < 3; i++ {
+			// a visible mutation id first, so that the distance to the boundary is known
+			out = append(out, drv.Op{Op: "cleave", V: 0, N: seed()}, drv.Op{Op: "lmerge", V: 0, N: seed()},
+				drv.Op{Op: "stridecrash", V: 0, N: seed(), M: int64(r.IntN(3)), Mode: pick(r, []string{"before", "after", "held", "held"})})
+		}
+		out = append(out, drv.Op{Op: "lmerge", V: 0, N: seed()}, drv.Op{Op: "cleave", V: 0, N: seed()}, drv.Op{Op: "lcheckall"})
+		steps = out
+	}
 	k := baseKnobs(r)
-	k.MutIDStart = 1000*uint64(1+r.IntN(50)) + 100*uint64(r.IntN(10)) - uint64(r.IntN(3)) // 0-2 below a stride boundary
+	if fam == "stride-race" {
+		k.Bias = 2 // let one request finish while the boundary-crossing one stays parked at its metadata write
+	}
+	// min_mutation_id_start only counts above DVID's built-in 1e9: 0-2 below a multiple of 100 beyond it
+	k.MutIDStart = 1000000000 + 1000*uint64(1+r.IntN(50)) + 100*uint64(r.IntN(10)) - uint64(r.IntN(3))
 	return &drv.Scenario{Family: fam, Knobs: k, Steps: steps, Fixed: 2}
 }
 
 type c12State struct {
+	seg2Pairs int // stride-race family: next unused supervoxel pair of the second labelmap instance (0 = not created)
 	vids      map[int]string // version id -> uuid, over the whole history
 	afterStop bool           // a restart/crash happened since the last allocation
 }
@@ -130,6 +151,8 @@ func (c C12) Execute(sc *drv.Scenario, w *drv.World) (*drv.Violation, error) {
 			v, err = c.ingestKill(x, s, op)
 		case "burn":
 			err = c.burn(x, op)
+		case "stridecrash":
+			v, err = c.strideCrash(x, s, op)
 		case "restart":
 			_, v, err = x.Apply(op)
 			s.afterStop = true
@@ -415,4 +438,124 @@ func (c C12) ingestKill(x *LabelExec, s *c12State, op drv.Op) (*drv.Violation, e
 
 func (C12) NonTrivial(sc *drv.Scenario, st *drv.RunStats) bool {
 	return st.Probes["allocation-after-restart-or-crash"] > 0 || st.Probes["concurrent-allocation-batches"] > 0
+}
+
+// strideCrash: 2-3 merges of disjoint body pairs are issued together with a crash armed at the write of the
+// persisted mutation-id bound (metadata key class 7).  If the batch crosses the stride the process dies
+// around that write; merges answered before count as acknowledged and their ids must never be issued again.
+func (c C12) strideCrash(x *LabelExec, s *c12State, op drv.Op) (*drv.Violation, error) {
+	if x.M == nil || !x.D.Has(op.V) || x.D.Nodes[op.V].Locked {
+		return nil, nil
+	}
+	r := drv.NewRNG(uint64(op.N) + 99)
+	lv := x.M.Versions[op.V]
+	bodies := sortedBodies(lv)
+	if len(bodies) < 4 {
+		return nil, nil
+	}
+	r.Shuffle(len(bodies), func(i, j int) { bodies[i], bodies[j] = bodies[j], bodies[i] })
+	bs := lv.BodySVs()
+	n := 2
+	if len(bodies) >= 6 && r.IntN(2) == 0 {
+		n = 3
+	}
+	var reqs []proto.Req
+	for i := 0; i < n; i++ {
+		reqs = append(reqs, proto.Req{Client: fmt.Sprintf("c%d", i+1), Kind: "http", Method: "POST", URL: x.base(op.V) + "/merge", Body: jsonU64s([]uint64{bodies[2*i], bodies[2*i+1]})})
+	}
+	// Body-level mutations of one instance run one at a time; mutation ids are per repository, so the
+	// request that overlaps them goes to a second labelmap instance of the same repository.
+	if s.seg2Pairs == 0 {
+		u := x.uuid(0)
+		st, body, err := x.W.HTTP("POST", "/api/repo/"+u+"/instance", jsonBody(map[string]interface{}{"typename": "labelmap", "dataname": "seg2", "BlockSize": "16,16,16", "MaxDownresLevel": "0"}))
+		if err != nil {
+			return nil, err
+		}
+		if st != 200 {
+			return nil, fmt.Errorf("%w: cannot create seg2: %d %s", drv.ErrInfra, st, body)
+		}
+		vol := make([]uint64, 16*16*16)
+		for i := range vol {
+			vol[i] = uint64(1 + (i/256)%16) // 16 slabs = 16 supervoxels
+		}
+		if st, body, err := x.W.HTTP("POST", "/api/node/"+x.uuid(op.V)+"/seg2/raw/0_1_2/16_16_16/0_0_0", u64sToBytes(vol)); err != nil || st != 200 {
+			if err == nil {
+				err = fmt.Errorf("%w: seg2 ingest: %d %s", drv.ErrInfra, st, body)
+			}
+			return nil, err
+		}
+		s.seg2Pairs = 1
+	}
+	if s.seg2Pairs <= 7 {
+		a := uint64(2*s.seg2Pairs - 1)
+		reqs = append(reqs, proto.Req{Client: "c9", Kind: "http", Method: "POST", URL: "/api/node/" + x.uuid(op.V) + "/seg2/merge", Body: jsonU64s([]uint64{a, a + 1})})
+		s.seg2Pairs++
+	}
+	// place the batch on the boundary: ids that trigger the persist of the next bound are those
+	// congruent to (first id of the repository - 1) modulo the stride of 100
+	if nm := len(x.MutIDs); nm > 0 {
+		next := x.MutIDs[nm-1] + 1
+		start := x.W.Knobs.MutIDStart
+		if start < 1000000000 {
+			start = 1000000000
+		}
+		j := uint64(int(op.M) % (n + 1)) // the trigger id is the (j+1)-th id of the batch
+		trigger := next + j
+		for (trigger+1)%100 != start%100 {
+			trigger++
+		}
+		if burnN := int64(trigger) - int64(j) - int64(next); burnN > 0 && burnN < 100 {
+			if err := c.burn(x, drv.Op{Op: "burn", V: op.V, N: burnN}); err != nil {
+				return nil, err
+			}
+		}
+	}
+	if err := x.W.SetFaults(&proto.FaultPlan{CrashAtWrite: 1, CrashSide: op.Mode, CrashMatch: "Put 0007"}); err != nil {
+		return nil, err
+	}
+	res, err := x.W.Batch(reqs, "barrier")
+	crashed := errors.Is(err, drv.ErrPlannedCrash)
+	if err != nil && !crashed {
+		return nil, err
+	}
+	if !crashed && res.Wedged {
+		return nil, x.W.ClassifyWedge("concurrent merges\n"+descReqs(reqs), res.Stacks)
+	}
+	var muts []uint64
+	if res != nil {
+		for i, rp := range res.Resps {
+			if !rp.Done || rp.Status != 200 {
+				continue
+			}
+			if id, ok := parseMutResp(rp.Body)["MutationID"]; ok {
+				muts = append(muts, id)
+			}
+			if !crashed && i < n {
+				for _, sv := range bs[bodies[2*i+1]] {
+					lv.Map[sv] = bodies[2*i]
+				}
+			}
+		}
+	}
+	sort.Slice(muts, func(i, j int) bool { return muts[i] < muts[j] })
+	if os.Getenv("VERIF_TRACE") != "" {
+		fmt.Fprintf(os.Stderr, "TRACE stridecrash start=%d last=%v got=%v crashed=%v\n", x.W.Knobs.MutIDStart, x.MutIDs[max(0, len(x.MutIDs)-2):], muts, crashed)
+	}
+	x.MutIDs = append(x.MutIDs, muts...)
+	if !crashed {
+		x.W.Stats.Probe("label-merge")
+		return nil, x.W.SetFaults(&proto.FaultPlan{})
+	}
+	x.W.Stats.Probe("crash-at-mutation-id-bound-write")
+	if len(muts) > 0 {
+		x.W.Stats.Probe("ids-acknowledged-before-crash-at-bound-write")
+	}
+	if _, err := x.W.Start(); err != nil {
+		return nil, err
+	}
+	s.afterStop = true
+	if err := x.Resync(); err != nil {
+		return nil, err
+	}
+	return s.checkVersionIDs(x.W)
 }
